@@ -505,9 +505,12 @@ func VerifH_C13_finalize() {
 	}
 	hasFinalAfter := p.out != nil && meta.ContainsFinalizer(p.out.Finalizers, executiongroup.DeleteDependentsFinalizer)
 	if j.deleted && j.hasFinal && p.out != nil {
+		// a task created in this very pass exists as well, whether or not the cache shows it yet
+		vz.Assert(len(p.created) == 0, "C13/no-task-created-for-a-job-being-deleted")
 		if !hasFinalAfter {
 			vz.Cover("finalizer-dropped")
 			vz.Assert(!anyListed, "C13/finalizer-kept-while-a-task-is-listed")
+			vz.Assert(len(p.created) == 0, "C13/finalizer-kept-while-a-task-is-listed")
 		}
 		if anyListed && err == nil && p.deleteFailed == 0 {
 			for _, r := range j.refs {
